@@ -29,6 +29,15 @@ Qed.
 Lemma np_next_prec ts : np (next_prec tbl tm ts).
 Proof. unfold next_prec. apply np_bind; [apply np_peek | intros; discriminate]. Qed.
 
+Lemma np_postfixes : forall f lhs ts, np (parse_postfixes tbl tm f lhs ts).
+Proof.
+  induction f as [|f IH]; intros; cbn [parse_postfixes]; [discriminate|].
+  destruct ts as [|t r]; [discriminate|]. destruct t; try discriminate.
+  destruct (is_postfix tbl s); [|discriminate].
+  apply np_bind; [apply np_advance|]. intros ts2. apply np_bind; [unfold built; destruct (MAX_DEPTH <? _); discriminate|].
+  intros [e ts3]. apply IH.
+Qed.
+
 Ltac np_step IH :=
   match goal with
   | |- np (Ok _) => apply np_ok
@@ -38,6 +47,7 @@ Ltac np_step IH :=
   | |- np (expect _ _ _) => apply np_expect
   | |- np (next_prec _ _ _) => apply np_next_prec
   | |- np (built _ _) => unfold built
+  | |- np (parse_postfixes _ _ _ _ _) => apply np_postfixes
   | |- np (bind _ _) => apply np_bind; [|intros]
   | |- np (let '(_, _) := ?x in _) => destruct x
   | |- np (match ?x with _ => _ end) => destruct x
